@@ -31,24 +31,24 @@ fn osc_by_debug_name(name: &str) -> Option<u16> {
     .copied()
 }
 
-/// "Press((KEY_A, 3))" -> ["p", 30, 3]; "Release((KEY_A, 0))" -> ["r", 30, 0]; "EndMacro(1)" -> ["e", 1, 0]
-fn dyn_item_json(dbg: &str, cap: u16) -> Value {
+/// "Press((KEY_A, 3))" -> ["p", 30]; "Release((KEY_A, 0))" -> ["r", 30]; "EndMacro(1)" -> ["e", 1]
+/// (the recorded delays are not projected: they show as the tick count of the replay)
+fn dyn_item_json(dbg: &str) -> Value {
     let (kind, rest) = if let Some(r) = dbg.strip_prefix("Press((") {
         ("p", r)
     } else if let Some(r) = dbg.strip_prefix("Release((") {
         ("r", r)
     } else if let Some(r) = dbg.strip_prefix("EndMacro(") {
         let id: u64 = r.trim_end_matches(')').trim().parse().unwrap_or(0);
-        return json!(["e", id, 0]);
+        return json!(["e", id]);
     } else {
-        return json!(["?", dbg, 0]);
+        return json!(["?", dbg]);
     };
     let inner = rest.trim_end_matches(')');
     let mut parts = inner.split(',');
     let name = parts.next().unwrap_or("").trim();
-    let delay: u16 = parts.next().unwrap_or("0").trim().parse().unwrap_or(0);
     let code = osc_by_debug_name(name).map(|c| json!(c)).unwrap_or(json!(name));
-    json!([kind, code, delay.min(cap)])
+    json!([kind, code])
 }
 
 pub fn parse_out_event(names: &KeyNames, s: &str) -> Option<Value> {
@@ -220,7 +220,7 @@ impl Sim {
                 Event::Release(i, j) => json!([0, i, j]),
             })
             .collect();
-        // dynamic macros: the stored macros (sorted by id; the trailing run of zero-delay releases
+        // dynamic macros: the stored macros (sorted by id; the trailing run of releases
         // of a macro sorted by code, because the code emits the releases of keys still down at the
         // stop in HashSet iteration order), whether a recording / a replay is in progress
         let mut dm: Vec<(u16, Value)> = self
@@ -228,9 +228,9 @@ impl Sim {
             .dynamic_macros
             .iter()
             .map(|(id, items)| {
-                let mut v: Vec<Value> = items.iter().map(|it| dyn_item_json(&format!("{it:?}"), cap)).collect();
+                let mut v: Vec<Value> = items.iter().map(|it| dyn_item_json(&format!("{it:?}"))).collect();
                 let mut t = v.len();
-                while t > 0 && v[t - 1][0] == "r" && v[t - 1][2] == 0 {
+                while t > 0 && v[t - 1][0] == "r" {
                     t -= 1;
                 }
                 v[t..].sort_by_key(|x| x[1].as_u64().unwrap_or(0));
@@ -265,6 +265,19 @@ impl Sim {
             "tsi": capv(self.k.ticks_since_idle),
             "nwfi": self.k.waiting_for_idle.len(),
             "nvpr": self.k.vkeys_pending_release.len(),
+            // defseq sequence mode (SeqMode.tla SqProj)
+            "sq": {
+                "act": self.k.sequence_state.is_active(),
+                "seq": self.k.sequence_state.sequence.clone(),
+                "ov": self.k.sequence_state.overlapped_sequence.clone(),
+                "raw": self.k.sequence_state.raw_oscs.iter().map(|o| o.as_u16()).collect::<Vec<u16>>(),
+                "ttl": self.k.sequence_state.ticks_until_timeout,
+                "timeout": self.k.sequence_state.sequence_timeout,
+                "mode": format!("{:?}", self.k.sequence_state.sequence_input_mode),
+            },
+            // chords v2 (private state): only the two public predicates are observable without hooks
+            "cv2i": l.chords_v2.as_ref().map(|c| c.is_idle_chv2()).unwrap_or(true),
+            "cv2a": l.chords_v2.as_ref().map(|c| c.accepts_chords_chv2()).unwrap_or(true),
             "dm": dm,
             "drec": self.k.dynamic_macro_record_state.is_some(),
             "drep": self.k.dynamic_macro_replay_state.is_some(),
